@@ -17,7 +17,7 @@ or a cancellation at the k-th executed fault point), and the three operations as
                     Relayers, pyatv/core/relayer.py :117 takeover / :125 release) and
                     RaopPlaybackManager.acquire (refuses when `_is_acquired`)
 
-The scripts transcribe the code AFTER the six `fix:` commits of this property (D13 a-f);
+The scripts transcribe the code AFTER the eight `fix:` commits of this property (D13 a-h);
 `Orig.*` are the scripts of the pinned tree before the repair (they are not `Bracketed`;
 Props/C18.lean proves the leaks as counterexamples).
 
@@ -50,6 +50,7 @@ inductive Res
   | eventch                -- AirPlayV2.event_channel (TCP connection opened by setup_channel)
   | fbtask                 -- AirPlayV2._feedback_task / AirPlayV1._keep_alive_task
   | audiosock              -- the audio UDP endpoint opened by StreamClient.send_audio
+  | ptiming                -- the timing server (UDP endpoint) of AirPlayPlayer.play_url
   | volDeferred            -- not a resource: the local `volume` of stream_file is set (set_volume failed)
   deriving DecidableEq, Repr
 
@@ -69,6 +70,7 @@ def Res.toStr : Res → String
   | .eventch => "eventch"
   | .fbtask => "fbtask"
   | .audiosock => "audiosock"
+  | .ptiming => "ptiming"
   | .volDeferred => "volDeferred"
 
 /-- What strikes at a fault point. -/
@@ -283,8 +285,26 @@ def streamFileWith (send : Bool → Prog) (volKnown metaGiven v2 : Bool) : Prog 
 
 def streamFile (volKnown metaGiven v2 : Bool) : Prog := streamFileWith sendAudio volKnown metaGiven v2
 
-/-- AirPlayStream.play_url.  `localFile`: the URL is a local file served by a web server. -/
-def playUrl (localFile : Bool) : Prog :=
+/-- StreamProtocol.play_url of the protocol object: AirPlayV1.play_url (airplayv1.py :117) —
+    pair-verify, POST /play; AirPlayV2.play_url (airplayv2.py :204) — _setup_base
+    (verify_connection, SETUP, setup_channel → event channel), start_feedback (task), RECORD,
+    POST /play, five property/rate requests. -/
+def protoPlay (v2 : Bool) : List Prog :=
+  if v2 then [.await, .await, .await, .new .eventch, .new .fbtask, .await, .await,
+              .await, .await, .await, .await, .await]
+  else [.await, .await]
+
+/-- AirPlayPlayer.play_url (pyatv/protocols/airplay/player.py :44) inside the play task:
+    `async with timing_server(rtsp)` (:25, a UDP endpoint, closed by its finally), the
+    protocol's play_url, then polling /playback-info until the media ended (two polls).
+    `guarded = false` is the pinned context manager without try/finally (D13g). -/
+def playerPlay (guarded v2 : Bool) : Prog :=
+  let body := Prog.ofList ([.await, .new .ptiming] ++ protoPlay v2 ++ [.await, .await])
+  if guarded then .tryFinally body (.relOwn .ptiming) else .seq body (.relOwn .ptiming)
+
+/-- AirPlayStream.play_url.  `localFile`: the URL is a local file served by a web server;
+    `v2`: AirPlay 2 receiver.  `td`: the inner finally calls stream_protocol.teardown(). -/
+def playUrlWith (guarded td : Bool) (localFile v2 : Bool) : Prog :=
   .tryFinally
     (Prog.ofList [
       (if localFile then .seq .await (.new .server) else .skip),   -- await server.start()
@@ -292,9 +312,13 @@ def playUrl (localFile : Bool) : Prog :=
       .tryFinally
         (Prog.ofList [.await, .new .playConn,                      -- http_connect
                       .new .playTask,                              -- ensure_future(player.play_url)
-                      .await])                                     -- await self._play_task
-        (Prog.ofList ((airplayTakeover.map .relOwn) ++ [.relOwn .playTask, .relOwn .playConn])) ])
+                      playerPlay guarded v2])                      -- await self._play_task
+        (Prog.ofList ((airplayTakeover.map .relOwn) ++ [.relOwn .playTask] ++
+          (if td then [.relOwn .fbtask, .relOwn .eventch] else []) ++   -- stream_protocol.teardown()
+          [.relOwn .playConn])) ])
     (if localFile then .seq (.relOwn .server) .await else .skip)   -- if server: await server.close()
+
+def playUrl (localFile v2 : Bool) : Prog := playUrlWith true true localFile v2
 
 /-! ## The pinned tree before the repair (D13 a–e) -/
 namespace Orig
@@ -332,6 +356,11 @@ def sendAudio (v2 : Bool) : Prog :=
 
 /-- stream_file of the current tree with that send_audio. -/
 def streamFileF (volKnown metaGiven v2 : Bool) : Prog := streamFileWith sendAudio volKnown metaGiven v2
+
+/-- D13g / D13h: the player's timing server had no try/finally; play_url never called
+    stream_protocol.teardown(). -/
+def playUrlG (localFile v2 : Bool) : Prog := playUrlWith false true localFile v2
+def playUrlH (localFile v2 : Bool) : Prog := playUrlWith true false localFile v2
 
 /-- the web server is started and the takeover done before the try. -/
 def playUrl (localFile : Bool) : Prog :=
